@@ -1,3 +1,4 @@
+pub mod c01;
 pub mod c07;
 pub mod c08;
 pub mod c09;
@@ -9,6 +10,7 @@ pub mod certfam;
 pub fn run(prop: &str, tier: &str, replay: Option<&str>) -> i32 {
     match prop {
         "C02" | "C04" | "C05" => certfam::run(prop, tier, replay),
+        "C01" => c01::run(prop, tier, replay),
         "C07" => c07::run(prop, tier, replay),
         "C08" => c08::run(prop, tier, replay),
         "C09" => c09::run(prop, tier, replay),
